@@ -3500,6 +3500,16 @@ impl ContinuityStore {
     }
 
     fn load_next_seq_for(&self, continuity_id: &str) -> Result<u64, io::Error> {
+        // The truth log decides the numbering: the sidecar is appended after the log, so after a
+        // crash between the two (or with a stale cache) its tail is behind and would re-issue a
+        // seq that already exists.
+        if let Ok(Some(last_seq)) = self
+            .event_log
+            .last_seq_of_stream(StreamKind::Continuity, continuity_id)
+        {
+            return Ok(last_seq.saturating_add(1));
+        }
+
         if let Ok(Some(last_seq)) = self.stream_cache.try_read_last_seq(continuity_id) {
             return Ok(last_seq.saturating_add(1));
         }
